@@ -63,9 +63,16 @@ where
 
     fn call(&mut self, req: http::request::Parts) -> Self::Future {
         let config = self.config.clone();
-        let Some(host) = req.uri.host().map(String::from) else {
+        let Some(host) = req.uri.host() else {
             return future::TlsConnectionFuture::error(TlsConnectionError::NoDomain);
         };
+
+        let Some(host) = crate::client::conn::stream::tls::server_name_str(host) else {
+            return future::TlsConnectionFuture::error(TlsConnectionError::InvalidServerName(
+                host.to_owned(),
+            ));
+        };
+        let host = host.to_owned();
 
         let future = self.transport.connect(req);
 
